@@ -63,19 +63,27 @@ def make_args(case, folder):
 
 
 def read_table(path):
-    """Rows of a tab separated file as [name, score text]; None when the file does not exist."""
+    """Rows of a tab separated file as written by DataFrame.to_csv(sep='\\t') (csv quoting: a field containing a quote, a tab or a
+    line break is quoted, quotes doubled); None when the file does not exist."""
     if not os.path.exists(path):
         return None
+    import csv
     with open(path, encoding="utf8", newline="") as f:
-        text = f.read()
-    lines = text.split("\n")
-    if lines and lines[-1] == "":
-        lines.pop()
-    rows = []
-    for ln in lines[1:]:
-        cells = ln.split("\t")
-        rows.append(cells)
-    return {"header": lines[0].split("\t") if lines else [], "rows": rows}
+        recs = list(csv.reader(f, delimiter="\t", quotechar='"', doublequote=True))
+    if not recs:
+        return {"header": [], "rows": []}
+    return {"header": recs[0], "rows": [r for r in recs[1:] if r != []]}
+
+
+def write_triplets(path, rows):
+    """pairwise_ranks.tsv as the ranking task writes it: triplets.to_csv(path, sep='\\t', index=False), i.e. the csv module with
+    minimal quoting and '\\n' line ends; the score text is kept verbatim (it never needs quoting)."""
+    import csv
+    with open(path, "w", encoding="utf8", newline="") as f:
+        w = csv.writer(f, delimiter="\t", quotechar='"', doublequote=True, quoting=csv.QUOTE_MINIMAL, lineterminator="\n")
+        w.writerow(["FeatureA", "FeatureB", "Score"])
+        for a, b, sc in rows:
+            w.writerow([a, b, sc])
 
 
 out = []
@@ -83,10 +91,7 @@ for i, case in enumerate(payload["cases"]):
     folder = os.path.join(BASE, "case%d" % i)
     shutil.rmtree(folder, ignore_errors=True)
     os.makedirs(folder)
-    with open(os.path.join(folder, "pairwise_ranks.tsv"), "w", encoding="utf8", newline="") as f:
-        f.write("FeatureA\tFeatureB\tScore\n")
-        for a, b, s in case["rows"]:
-            f.write("%s\t%s\t%s\n" % (a, b, s))
+    write_triplets(os.path.join(folder, "pairwise_ranks.tsv"), case["rows"])
     tp = os.path.join(folder, "pairwise_ranks.tsv")
     try:
         past = os.path.getmtime(tp) - 60.0
